@@ -368,6 +368,19 @@ Proof.
       * exists Body, e. split; [reflexivity|]. unfold attrs_layers. apply in_or_app. now left.
 Qed.
 
+(** Every free name of every generated script is a pinned builtin or a helper global registered
+    by one of the scripts of that class - never an un-pinned builtin, never a name only the defining
+    module could supply. *)
+Lemma free_names_pinned_or_helpers_l s m st n b :
+  In m (generated_methods s) -> In (st, n, b) (free_refs s m) ->
+  In (n, b) pinned_ns \/ In (n, b) (snippets s).
+Proof.
+  intros Hm Hr. apply generated_methods_In in Hm.
+  destruct (refs_registered _ _ _ Hm Hr) as (st' & e & E & He).
+  destruct e as [n' b']. unfold rf in E. cbn in E. injection E as <- <- <-.
+  unfold attrs_layers in He. now apply in_app_iff in He.
+Qed.
+
 (** ** Locals never hide a free name (under the guard) *)
 
 Lemma shape_name_not_fixed_local e l :
